@@ -25,6 +25,13 @@ PROPS = {
         cfgs_quick=["std-debug", "std-release", "nosimd-debug"],
         cfgs_thorough=ALL4,
     ),
+    "C11": dict(
+        theorems=["limits", "exhaustion_atomic", "usable_after_error", "seek_total",
+                  "no_exhaustion_below_2_64", "no_reuse", "nonce_words_fixed"],
+        gen=g("C11"),
+        cfgs_quick=["std-debug", "std-release", "nosimd-debug"],
+        cfgs_thorough=ALL4,
+    ),
     "C14": dict(
         theorems=["refill4_eq", "refill_counter", "refill4_counter", "refill_block"],
         gen=g("C14"),
